@@ -14,11 +14,13 @@
 (* numbers that fail.  After the program the objects are reset (arena memory goes back wholesale; VM    *)
 (* mappings and heap headers of LINKED blocks are released by the owner) and the program is repeated    *)
 (* without failures.  Checked: NoCorruption, Consistent, ErrorIffFailed (+ atomicity), NoLeak,          *)
-(* RetryEqualsClean.  Negative controls (must be violated): Discipline = "AppendFirst" (append before   *)
+(* RetryEqualsClean, and with InPlace = TRUE (a failed transaction is repeated at once on the same objects)         *)
+(* InPlaceCompletes.  Negative controls (must be violated): Discipline = "AppendFirst" (append before   *)
 (* the second reserve: Consistent), RollBack = FALSE (NoLeak), Discipline = "NoReserve" (NoCorruption). *)
 EXTENDS Naturals, Sequences, FiniteSets, TLC
 
-CONSTANTS MaxOps, MaxFail, Discipline, RollBack
+CONSTANTS MaxOps, MaxFail, Discipline, RollBack,
+          InPlace      \* TRUE: a transaction that reported an error is repeated at once on the same objects (no reset)
 
 StepsOf(op) ==
   IF op = "S"
@@ -65,8 +67,9 @@ Fails(n) == phase = "run" /\ n \in fail
 
 Baseline == IF st = 1 THEN Abs ELSE snap          \* abstract contents when the current transaction started
 Advance == st' = st + 1 /\ UNCHANGED <<op, results>> /\ snap' = Baseline
-Abort ==      \* the transaction returns an error
-  /\ results' = Append(results, "Err") /\ op' = op + 1 /\ st' = 1 /\ failedNow' = FALSE /\ snap' = Baseline
+Abort ==      \* the transaction returns an error; continuation "retry in place": the same transaction is started again
+  /\ results' = Append(results, "Err") /\ op' = (IF InPlace /\ phase = "run" THEN op ELSE op + 1)
+  /\ st' = 1 /\ failedNow' = FALSE /\ snap' = Baseline
 
 Grow(v) == [v EXCEPT !.cap = IF v.cap = 0 THEN 1 ELSE 2 * v.cap]
 Push(v, x) == [v EXCEPT !.items = Append(v.items, x)]
@@ -127,13 +130,18 @@ AtBoundary == st = 1
 Consistent == AtBoundary => /\ Range(A.items) = Range(B.items) /\ Len(A.items) = Len(B.items)
                             /\ Len(A.items) <= A.cap /\ Len(B.items) <= B.cap
 (* a transaction that reported an error left the abstract contents as they were; one that reported Ok applied its effect *)
-Atomic == [][(op' = op + 1 /\ phase' = phase) =>
-               IF results'[op] = "Err" THEN Abs' = Baseline
+Atomic == [][(Len(results') = Len(results) + 1 /\ phase' = phase) =>
+               IF results'[Len(results')] = "Err" THEN Abs' = Baseline
                ELSE IF prog[op] = "S" THEN A'.items = Append(Baseline[1], op) /\ B'.items = Append(Baseline[2], op)
                     ELSE Cardinality(blocks') = Cardinality(Baseline[3]) + 1]_vars
 NoLeak == (phase = "retry" /\ op = 1 /\ st = 1) => (vm = {} /\ hdr = {})
 NoLeakAtEnd == phase = "done" => /\ vm = {b[1] : b \in blocks} /\ hdr = {b[2] : b \in blocks}
 CleanItems == SelectSeq([i \in 1..MaxOps |-> i], LAMBDA i : prog[i] = "S")
+(* retry in place: when the program is through, everything is as in the failure-free run - without any reset *)
+InPlaceCompletes == (InPlace /\ phase = "run" /\ op = MaxOps + 1) =>
+                      /\ A.items = CleanItems /\ B.items = CleanItems
+                      /\ Cardinality(blocks) = Cardinality({i \in 1..MaxOps : prog[i] = "B"})
+                      /\ vm = {b[1] : b \in blocks} /\ hdr = {b[2] : b \in blocks}
 RetryEqualsClean == phase = "done" => /\ A.items = CleanItems /\ B.items = CleanItems
                                       /\ Cardinality(blocks) = Cardinality({i \in 1..MaxOps : prog[i] = "B"})
                                       /\ results = [i \in 1..MaxOps |-> "Ok"]
